@@ -64,7 +64,7 @@ type inv struct {
 	err       error
 }
 
-const chunkCells = 1 << 14
+const chunkCells = 1 << 11
 
 var chunkPool = sync.Pool{New: func() any { s := make([]cell, chunkCells); return &s }}
 
@@ -655,11 +655,16 @@ func (in *inv) eval(e *Expr) []cell {
 	return nil
 }
 
-func f32(c cell) float32    { return math.Float32frombits(c.bits()) }
-func fcell(f float32) cell  { return cell(math.Float32bits(f)) }
-func i32(c cell) int32      { return int32(c.bits()) }
-func icell(i int32) cell    { return cell(uint32(i)) }
-func bcell(b bool) cell     { if b { return 1 }; return 0 }
+func f32(c cell) float32   { return math.Float32frombits(c.bits()) }
+func fcell(f float32) cell { return cell(math.Float32bits(f)) }
+func i32(c cell) int32     { return int32(c.bits()) }
+func icell(i int32) cell   { return cell(uint32(i)) }
+func bcell(b bool) cell {
+	if b {
+		return 1
+	}
+	return 0
+}
 func f64cell(f float64) cell { return cell(math.Float32bits(float32(f))) }
 
 // convert changes the scalar kind of every component (constructor / implicit conversion semantics,
@@ -781,8 +786,8 @@ func (in *inv) binary(e *Expr) []cell {
 	a := in.evalStable(e.a, e.b.fx)
 	b := in.eval(e.b)
 	op := binop(e.sub)
-	in.use(a, e, "operator "+binopText[op])
-	in.use(b, e, "operator "+binopText[op])
+	in.use(a, e, binopText[op])
+	in.use(b, e, binopText[op])
 	k := e.a.typ.Elem
 	switch op {
 	case bEq, bNe:
@@ -1286,7 +1291,7 @@ func (in *inv) exec(s *Stmt) ctl {
 
 func newConstEvaluator(p *Program) *inv {
 	ex := &execCtx{prog: p, steps: math.MaxInt64, limit: math.MaxInt64}
-	return &inv{ex: ex, prog: p, constMode: true, chunk: make([]cell, 1024)}
+	return &inv{ex: ex, prog: p, constMode: true, chunk: make([]cell, 256)}
 }
 
 func (in *inv) constEval(e *Expr) (v []cell, ok bool) {
